@@ -225,6 +225,39 @@ def check_relations(case):
             add(f"std.__array_greater_or_equal({ex}, {ey})", ERR if cm == ERR else cm >= 0)
         if cm != ERR and eq != (cm == 0):
             raise RuntimeError("reference inconsistent")
+    # operands that share their element thunks (the same value on both sides, a common prefix kept in one variable, a slice of
+    # the other operand), untouched or already evaluated: sharing must not decide anything the values do not decide
+    def shared(prefix, lhs, rhs, x, y):
+        eq, cm = ref_eq(x, y), ref_cmp(x, y)
+        for force in (False, True):
+            head = prefix + (" local forced = std.length(std.toString(v));" if force else "")
+            wrap = (lambda body: f"{head} if forced >= 0 then {body} else null") if force else (lambda body: f"{head} {body}")
+            add(wrap(f"{lhs} == {rhs}"), eq)
+            add(wrap(f"{lhs} != {rhs}"), not eq)
+            add(wrap(f"std.equals({lhs}, {rhs})"), eq)
+            add(wrap(f"{lhs} < {rhs}"), ERR if cm == ERR else cm < 0)
+            add(wrap(f"{lhs} <= {rhs}"), ERR if cm == ERR else cm <= 0)
+            add(wrap(f"{lhs} >= {rhs}"), ERR if cm == ERR else cm >= 0)
+            add(wrap(f"std.__compare({lhs}, {rhs})"), ERR if cm == ERR else float(cm))
+
+    shared(f"local v = {ea};", "v", "v", a, a)
+    if V.is_arr(a) and V.is_arr(b):
+        ia, ib = a["a"], b["a"]
+        p = 0
+        while p < min(len(ia), len(ib)) and ref_eq(ia[p], ib[p]):
+            p += 1
+        if p >= 1:
+            pre = "[" + ", ".join(sp.expr(x) for x in ia[:p]) + "]"
+            ra = "[" + ", ".join(sp.expr(x) for x in ia[p:]) + "]"
+            rb = "[" + ", ".join(sp.expr(x) for x in ib[p:]) + "]"
+            shared(f"local v = {pre};", f"(v + {ra})", f"(v + {rb})", a, b)
+        if ia:
+            k = sp.pick(len(ia) + 1)
+            shared(f"local v = {ea};", f"v[:{k}]", "v", {"a": ia[:k]}, a)
+            shared(f"local v = {ea};", "v", f"std.map(function(x) x, v)", a, a)
+    if V.is_obj(a):
+        shared(f"local v = {ea};", "v", "(v + {})", a, a)
+        shared(f"local v = {ea};", "{w: v}", "{w: v}", {"o": [["w", a]]}, {"o": [["w", a]]})
     nt_lazy = False
     # lazily failing tails beyond the deciding position
     if case["lazy"] and V.is_arr(a) and V.is_arr(b):
